@@ -128,19 +128,34 @@ theorem C15_max_min_are_source (a b : Int) :
     hide-input, toggle-input) neither the prompt row nor the info row is part of the screen: the
     fixed rows are the header lines only, and the list has all the other rows of the window. -/
 theorem C15_hidden_input_rows (o : ROpts) (v : View) (h : o.inputless = true) :
-    promptLines o = 0 ∧
+    promptLines o = 0 ∧ inputRows o v = [] ∧
     logical o v = (if o.layout = .reverse then o.header0.map (headerRow o) else (o.header0.map (headerRow o)).reverse) ∧
     maxItems o = o.H - (o.header0.length + o.headerItems.length) := by
   have hp : promptLines o = 0 := by unfold promptLines; simp [h]
-  refine ⟨hp, ?_, ?_⟩
-  · unfold logical; simp [h, hp]
+  have hi : inputRows o v = [] := by unfold inputRows; simp [h, hp]
+  refine ⟨hp, hi, ?_, ?_⟩
+  · unfold logical hdr0Rows; rw [hi]; simp
   · unfold maxItems; rw [hp]; omega
 
 /-- … and a shown one takes the prompt row first: the row next to the edge the layout puts the
     prompt on is the prompt row. -/
 theorem C15_shown_input_first_row (o : ROpts) (v : View) (h : o.inputless = false) :
-    (logical o v).head? = some (promptRow o v.input v.found v.total v.nsel) := by
-  unfold logical; simp [h]
+    (logical o v).head? = some (promptRow o v.input v.found v.total v.nsel) ∧
+    (inputRows o v).head? = some (promptRow o v.input v.found v.total v.nsel) := by
+  unfold logical inputRows; simp [h]
+
+/-- **--header-first moves the headers, not the list.** With or without --header-first the fixed
+    rows (input section, --header, --header-lines) take the same number of rows, so every list row
+    is where `C15_order_by_layout` puts it; with --header-first the rows next to the edge are the
+    --header lines and the input section follows them (and the --header-lines in the layouts that
+    keep them next to the list). -/
+theorem C15_header_first (o : ROpts) (v : View) :
+    (fixedBlock o v).length = promptLines o + o.header0.length + o.headerItems.length ∧
+    (o.headerFirst = true → fixedBlock o v = hdr0Rows o ++ o.headerItems.map (headerRow o) ++ inputRows o v) ∧
+    (o.headerFirst = false → fixedBlock o v = inputRows o v ++ hdr0Rows o ++ o.headerItems.map (headerRow o)) := by
+  refine ⟨fixedBlock_length o v, ?_, ?_⟩
+  · intro h; unfold fixedBlock; simp [h]
+  · intro h; unfold fixedBlock logical; simp [h]
 
 /- Non-vacuity: a concrete screen. -/
 example :
